@@ -404,3 +404,47 @@ def option_root(body, o, limit=24):
             return ("const", "None")
         return ("local", l)
     return ("local", l)
+
+
+def loop_header_events(body, inner_block):
+    """`Iterator::next` calls heading the loop(s) that contain inner_block: events that every
+    path leaving the loop normally must have crossed (with a None result)."""
+    loop = body.reachable(tuple(body.succ(inner_block)))
+    out = []
+    if inner_block not in loop:
+        return out
+    for b, t in body.calls():
+        if t.get("f", "").endswith("Iterator::next") and b in loop and inner_block in body.reachable(tuple(body.succ(b))):
+            out.append(Ev(b, "term", what="loop iterator"))
+    return out
+
+
+def rule_after_loop(rep, prog, rule, fid, inner_names, b_names, inner_what, b_what, key=None):
+    """calls to b_names happen only after the loop containing the call(s) to inner_names ran to
+    completion (dominated by the loop's iterator, not inside the loop body)."""
+    body = get_body(rep, prog, rule, fid)
+    if body is None:
+        return False
+    key = key or "%s: %s only after the loop over %s" % (short(fid), b_what, inner_what)
+    ins = calls_to(prog, body, inner_names)
+    bs = calls_to(prog, body, b_names)
+    if not ins or not bs:
+        rep.fail(rule, key, "cannot establish: %s or %s not found in %s" % (inner_what, b_what, fid), site=body.span)
+        return False
+    hdr = []
+    for b, _ in ins:
+        hdr.extend(loop_header_events(body, b))
+    if not hdr:
+        rep.fail(rule, key, "%s is not inside a loop in %s" % (inner_what, fid), site=site(body, ins[0][0]))
+        return False
+    B = [Ev(b, "term") for b, _ in bs]
+    bad = must_precede(body, hdr, B)
+    loop = set()
+    for b, _ in ins:
+        loop |= {x for x in body.reachable(tuple(body.succ(b))) if b in body.reachable((x,))}
+    inside = [e for e in B if e.b in loop]
+    if bad or inside:
+        rep.fail(rule, key, "%s is reachable before the loop over %s has completed" % (b_what, inner_what), site=site(body, (bad or inside)[0].b))
+        return False
+    rep.ok(rule, key, "dominated by the loop's iterator and outside the loop body", site=site(body, bs[0][0]))
+    return True
